@@ -512,11 +512,13 @@ class MultiIndex:
 
 
 class WriterThread(threading.Thread):
-    def __init__(self, env, stat_collector):
+    def __init__(self, env, stat_collector, on_added=None):
         super().__init__()
         self.running = True
         self.env = env
         self.stat_collector = stat_collector
+        # called with each newly stored event, after its transaction is committed
+        self.on_added = on_added
         self.queue = queue.SimpleQueue()
         self.write_indexes = [i for i in INDEXES.values() if i.enabled]
         self.processing = False
@@ -534,6 +536,7 @@ class WriterThread(threading.Thread):
             if task is None:
                 break
             operation, args = task
+            added = None
             try:
                 with stat_collector.timeit("write") as counter:
                     with env.begin(write=True, buffers=True) as txn:
@@ -545,6 +548,7 @@ class WriterThread(threading.Thread):
                                 index.write(event, txn)
                                 # log.debug("index %s event %s", index, event)
                             self._post_save(txn, event, counter, log)
+                            added = event
                         elif operation == "del":
                             event = decode_event(
                                 get_event_data(txn, bytes.fromhex(args[0]))
@@ -558,6 +562,8 @@ class WriterThread(threading.Thread):
                             index_name, events = args
                             INDEXES[index_name].bulk_update(events, txn)
                         counter["count"] += 1
+                if added is not None and self.on_added is not None:
+                    self.on_added(added)
                 qs = qsize()
                 if qs >= 1000 and qs % 1000 == 0:
                     # since we can do about 1,000 writes per second (end-to-end),
@@ -664,7 +670,9 @@ class LMDBStorage(BaseStorage):
         await super().setup()
         self.db = lmdb.open(**self.options)
         self.write_tombstone()
-        self.writer_thread = WriterThread(self.db, self.stat_collector)
+        self.writer_thread = WriterThread(
+            self.db, self.stat_collector, on_added=self.announce
+        )
         self.writer_queue = self.writer_thread.queue
         self.writer_thread.start()
 
@@ -725,8 +733,16 @@ class LMDBStorage(BaseStorage):
 
     async def post_save(self, event: Event, **kwargs):
         await self.notify_all_connected(event)
-        # notify other processes
-        await self.notify_other_processes(event)
+
+    def announce(self, event: Event):
+        """
+        Notify other processes. They look the event up by its id, so the writer
+        thread calls this once the event is committed (and only if it was new)
+        """
+        if self.notifier:
+            asyncio.run_coroutine_threadsafe(
+                self.notify_other_processes(event), self.loop
+            )
 
     async def reindex(
         self, index_name: str, batch_size=500, kinds=(1, 0), since=1, until=0
